@@ -7,6 +7,9 @@ VERIF = os.path.dirname(os.path.dirname(os.path.abspath(__file__)))
 IKE = ('TLC checks spec/Ike.tla (all invariants and action properties) exhaustively on the scenario bounds; every transition of the dumped '
        'state graph is replayed into two real IkeSaController objects and the projected state compared after every step')
 CHECKS = {
+    'C19': dict(level='exploration', ref='7 C19', technique='TLA+ operator Load over tagged YAML values (Config.tla: three-valued verdict, normal form; totality checked by TLC; cases via JsonSerialize) as oracle for Configuration(...)',
+                text='TLC evaluates Load on a base dictionary with every single perturbation of every documented key at connection, auth and protect-entry level (valid alternatives, missing, ill-typed, unknown, out of range) and top-level shapes; each case is loaded by the real Configuration: verdict ok => loads to exactly the normal form (algorithms in order, defaults, no ENCR for AH, NO_ESN, selectors, ports, protocol, mode, lifetimes, DPD, typed identities, credentials), err => ConfigurationError, either => one of both; pairs of perturbations are judged on the outcome class; any other exception is a violation.',
+                note='getaddrinfo served by the harness; integers / booleans where an address or identity is expected are "either" (observation O-6).'),
     'C01': dict(level='model_checking', ref='7 C01', technique='TLA+ model (Ike.tla: SameIkeKeys, Mirror, KEYMAT halves) + TLC + replay of every transition; configuration matrix judged by an independent wire oracle',
                 text=IKE + '; in addition a matrix of real negotiations (every IKE suite; ESP/AH, PFS, modes, IPv4/IPv6, PSK/RSA, preference orders; rekey histories) judged by an oracle that derives all keys from the wire values and DH private scalars and compares both kernels field by field.',
                 note='AES/SHA/OpenSSL DH primitives trusted; kernel ABI taken from <linux/xfrm.h> of this image; bounds per scenario in the evidence.'),
